@@ -104,7 +104,12 @@ def m_str_misc(ex, f, a):
         p = pystr(Str(pat()))
         if len(p) != 1: raise Unsupported('trim_matches with multi-char pattern')
         return mkstr(t.strip(p) if op == 'trim_matches' else (t.lstrip(p) if 'start' in op else t.rstrip(p)))
-    if op == 'replace': return mkstr(t.replace(pystr(Str(pat(1))), pystr(Str(pat(2)))))
+    if op == 'replace':
+        p1 = ex.deref(a[1])
+        if isinstance(p1, Agg) and p1.ty == 'array':          # char-set pattern: every occurrence of any of the chars
+            cs = ''.join(chr(c) for c in p1.fields); rep = pystr(Str(pat(2)))
+            return mkstr(''.join(rep if ch in cs else ch for ch in t))
+        return mkstr(t.replace(pystr(Str(pat(1))), pystr(Str(pat(2)))))
     if op in ('split', 'rsplit'):
         parts = t.split(pystr(Str(pat()))); return Iter([mkstr(x) for x in (parts if op == 'split' else parts[::-1])])
     if op == 'splitn': return Iter([mkstr(x) for x in t.split(pystr(Str(pat(2))), a[1] - 1)])
